@@ -3359,15 +3359,18 @@ where
         let mut iter = iter.into_iter();
 
         if let Some((key, value)) = iter.next() {
-            // safety: we own `map`, so it's not concurrently accessed by
-            // anyone else at this point.
-            let guard = unsafe { Guard::unprotected() };
-
             let (lower, _) = iter.size_hint();
             let map = HashMap::with_capacity_and_hasher(lower.saturating_add(1), S::default());
 
-            map.put(key, value, false, &guard);
-            map.put_all(iter, &guard);
+            {
+                // NOTE: this must be a real guard: with an unprotected one everything `put`
+                // retires (in `transfer` and `treeify_bin`) is freed on the spot, while those
+                // methods still use it (they unlock the mutex inside a retired head node and
+                // read the `next` pointer of a retired node).
+                let guard = map.guard();
+                map.put(key, value, false, &guard);
+                map.put_all(iter, &guard);
+            }
             map
         } else {
             Self::default()
